@@ -852,7 +852,7 @@ _DRIVER_FILES = {"registry": "Registry", "exec": "Exec", "items": "ItemSpace", "
                  "relhist": "RelHist",
                  "export": "Export", "codec": "Codec", "iospec": "IOSpec", "capture": "Capture",
                  "backup": "Backup", "calcsteps": "CalcSteps", "struct": "Struct", "smech": "SMech",
-                 "serial": "Serial"}
+                 "serial": "Serial", "edit": "Edit"}
 
 
 def _import_closure(start_files):
